@@ -1,7 +1,7 @@
 """C15 -- docstring prose outside the parameter section is preserved.
 
-TLC: DocSplit.tla -- SplitConcat, HeaderClean, HeaderWhole, HeaderKept over all (header shape incl. dashed sub-headings, footer
-     shape, source style, target style, indentation 0..2, route: docstring parser+emitter / function parse+emit) = 2160 behaviours.
+TLC: DocSplit.tla -- SplitConcat, HeaderClean, HeaderWhole, HeaderKept over all (header shape incl. dashed sub-headings, section kind both/params/ret, footer
+     shape, source style, target style, indentation 0..2, route: docstring parser+emitter with or without the original text / function parse+emit) = 19 440 behaviours.
 R:   every behaviour is concretised (the section is produced by the REAL emitter in the source style, x 2 parameter sets);
      the real parse_docstring_into_header_args_footer splits it and the real restyle path (parse_docstring ->
      docstring.emit with _internal.original_doc_str) converts it; verdicts: the three parts concatenate to the original
@@ -50,9 +50,15 @@ def build(case, variant):
     params = OrderedDict((("alpha", {"typ": "int", "doc": "the alpha", "default": 5}),)) if variant == 0 else \
         OrderedDict((("dataset_name", {"typ": "str", "doc": "name of the dataset", "default": "mnist"}),
                      ("as_numpy", {"typ": "Optional[bool]", "doc": "convert to numpy"})))
-    ir = {"name": "f", "doc": "", "params": params,
-          "returns": OrderedDict((("return_type", {"typ": "int", "doc": "the result"}),))}
-    section = cdd.docstring.emit.docstring(copy.deepcopy(ir), docstring_format=case["from"], indent_level=0).strip("\n")
+    sect = case.get("sect", "both")
+    ir = {"name": "f", "doc": "", "params": params if sect != "ret" else OrderedDict(),
+          "returns": OrderedDict((("return_type", {"typ": "int", "doc": "the result"}),)) if sect != "params" else None}
+    if sect == "ret":
+        # written by hand: the real Google / NumPy emitters glue a return-only section to its header (a listed C01 finding)
+        section = {"rest": ":return: the result\n:rtype: ```int```", "google": "Returns:\n  int:\n   the result",
+                   "numpydoc": "Returns\n-------\nint\n    the result"}[case["from"]]
+    else:
+        section = cdd.docstring.emit.docstring(copy.deepcopy(ir), docstring_format=case["from"], indent_level=0).strip("\n")
     header = lines_of(case["h"], 0)
     footer = lines_of(case["f"], 3)
     body = header + [""] + section.split("\n") + footer
@@ -67,7 +73,7 @@ def function_parse(case, text, variant):
 
     import cdd.function.parse
 
-    sig = "alpha=5" if variant == 0 else 'dataset_name="mnist", as_numpy=None'
+    sig = "" if case.get("sect") == "ret" else "alpha=5" if variant == 0 else 'dataset_name="mnist", as_numpy=None'
     depth = case["indent"]
     pad = "    " * depth
     src = "".join("{}class C{}(object):\n".format("    " * k, k) for k in range(depth))
@@ -148,7 +154,8 @@ def run_case(args):
                 out = function_emit(case, ir)
             else:
                 ir2 = copy.deepcopy(ir)
-                ir2["_internal"] = {"original_doc_str": text}
+                if case.get("route") != "ir":
+                    ir2["_internal"] = {"original_doc_str": text}
                 out = cdd.docstring.emit.docstring(ir2, docstring_format=case["to"], indent_level=case["indent"])
         pos = 0
         out_lines = [ln.strip() for ln in out.split("\n")]
@@ -164,6 +171,10 @@ def run_case(args):
         if absorbed:
             # the emitter chokes on the type that swallowed the prose: the same failure, already recorded under NoProseInFields
             res["fails"][-1] = ("NoProseInFields", res["fails"][-1][1] + " (and the emitter then raises {})".format(type(e).__name__))
+        elif isinstance(e, SyntaxError) and prose_f and any(ln.split()[0] in str(getattr(e, "text", "") or "") for ln in prose_f):
+            # the PARSER chokes on it: the offending text quoted by the SyntaxError is the type glued to the footer prose
+            res["fails"].append(("NoProseInFields", "footer prose was absorbed into a type, on which the parser then raises SyntaxError ({!r})".format(
+                (e.text or "").strip()[:60])))
         else:
             res["fails"].append(("HeaderKept", "the restyle path raises {}: {}".format(type(e).__name__, str(e)[:80])))
     return res
@@ -188,7 +199,7 @@ def check(run, replay=None):
     if replay:
         with open(replay) as f:
             want = json.load(f)["case"]["case"]
-        cases = [c for c in cases if all(c.get(k) == want.get(k, c.get(k)) for k in ("h", "f", "from", "to", "indent", "route"))]
+        cases = [c for c in cases if all(c.get(k) == want.get(k, c.get(k)) for k in ("h", "f", "from", "to", "indent", "route", "sect"))]
     run.exhaustive = True
     items = [(c, v) for c in cases for v in (0, 1)]
     tri = {}
@@ -198,11 +209,11 @@ def check(run, replay=None):
                 continue
             case = res["case"]
             run.replayed += 1
-            key = json.dumps([case["h"], case["f"], case["from"], case["to"], case["indent"], case.get("route"), res["variant"]])
+            key = json.dumps([case["h"], case["f"], case["from"], case["to"], case["indent"], case.get("route"), case.get("sect"), res["variant"]])
             for d in case["devs"]:
                 run.trigger(d)
-            label = "header={} footer={} {}->{} indent={} route={} params={}".format(
-                "".join(case["h"]), "".join(case["f"]) or "-", case["from"], case["to"], case["indent"], case.get("route"), res["variant"])
+            label = "header={} footer={} section={} {}->{} indent={} route={} params={}".format(
+                "".join(case["h"]), "".join(case["f"]) or "-", case.get("sect"), case["from"], case["to"], case["indent"], case.get("route"), res["variant"])
             if not res["fails"]:
                 run.held(key)
             else:
